@@ -136,7 +136,25 @@ func runC05(r *run) {
 			}
 			c.attrs = append(c.attrs, gattr{key: "req", isGroup: true, val: gval{kind: "group", items: items}})
 		}
-		if g.chance(1, 6) {
+		if g.chance(1, 8) {
+			// attributes named like the built-in fields and holding any value that is not a time.Time are ordinary
+			// attributes, at top level and inside groups
+			var items []gattr
+			for _, name := range []string{"time", "level", "msg", "logger"} {
+				if g.chance(1, 2) {
+					v := g.genScalar(true)
+					for v.kind == "time" || v.kind == "times" {
+						v = g.genScalar(true)
+					}
+					items = append(items, gattr{key: name, val: v})
+				}
+			}
+			if g.chance(1, 2) {
+				c.attrs = append(c.attrs, gattr{key: []string{"req", "g", "zz"}[g.intn(3)], isGroup: true, val: gval{kind: "group", items: items}})
+			} else {
+				c.attrs = append(c.attrs, items...)
+			}
+		} else if g.chance(1, 6) {
 			// a top-level attribute named like the reserved field and holding a time.Time (printed like the record's
 			// own timestamp); half of the time it is the last key in sort order
 			t := time.Unix(int64(g.intn(2000000000)), int64(g.intn(1000000))*1000)
